@@ -309,11 +309,85 @@ def check_shape(ctx, out):
     out.inst("C11.shape", n, 10, ["SimpleDiagnostic{range,code,message,severity,data?}, ViolationRange{start,end}, Position{line,character}"], exhaustive=True)
 
 
+def check_list(ctx, out, rule="C11.list"):
+    """The list report has one entry per selected block: the function(s) producing `serde_json::Value`
+    lists from `blocks_with_context` push exactly once per block on every path of the iteration, onto
+    the Vec that is returned; nothing is keyed (a map keyed by a line or a name would merge blocks),
+    removed or truncated afterwards."""
+    from rules.shared import TRUNCATING
+    from rules import util
+    from engine.cfg import cfg_of
+    n = 0
+    cands = []
+    LOSSY = r"::(dedup|dedup_by|dedup_by_key|retain|retain_mut|truncate|pop|remove|swap_remove|drain|clear|split_off)$"
+    for b in ctx.reachable_bodies():
+        if b.promoted is not None or "serde_json::Value" not in b.local_ty(0):
+            continue
+        E = ctx.expr(b)
+        cfg = cfg_of(b)
+        loops = util.loop_of_next(ctx, b, r"blocks_with_context")
+        maps = [(bi, t) for bi, t in b.calls() if callee_matches(t, r"Iterator>?::(map|filter_map|flat_map)$") and "blocks_with_context" in render(E.operand(t["args"][0]), 2000)]
+        if not loops and not maps:
+            continue
+        cands.append(b.id)
+        for bi, t in b.calls():
+            if callee_matches(t, LOSSY) and "serde_json::Value" in (t.get("arg_tys") or [""])[0]:
+                out.viol(rule, "%s|lossy|%s" % (rule, callee_name(t).split("::")[-1]), ctx.where(b, t["span"]),
+                         "the list of block entries is passed through `%s`: entries of selected blocks can be removed from the report" % callee_name(t).split("::")[-1])
+        for h, blocks, nb in loops:
+            t = b.blocks[nb]["term"]
+            e = E.operand(t["args"][0])
+            bad = [c[1].split("::")[-1] for c in walk(e) if c[0] == "call" and (TRUNCATING.search(c[1]) or re.search(r"Iterator>?::(filter|filter_map)$", c[1]))]
+            if bad:
+                out.viol(rule, "%s|truncated" % rule, ctx.where(b, t["span"]), "the list report iterates the blocks through %s: selected blocks can be left out of the report" % bad)
+                continue
+            region = util.iter_region(b, nb) | set(blocks)
+            some = util.switch_arms(b, cfg.succ[nb][0]).get(1)
+            pushes = [(bi, c) for bi, c in b.calls() if bi in region and callee_matches(c, r"Vec::<T, A>::push$") and "serde_json::Value" in (c.get("arg_tys") or [""])[0]]
+            keyed = [(bi, c) for bi, c in b.calls() if bi in region and callee_matches(c, r"(BTreeMap|HashMap|IndexMap|BTreeSet|HashSet)::<.*>::(insert|entry)$")
+                     and "serde_json::Map" not in callee_name(c)]
+            if len(pushes) != 1:
+                if keyed:
+                    kt = (keyed[0][1].get("arg_tys") or ["?"])[0]
+                    out.viol(rule, "%s|keyed" % rule, ctx.where(b, keyed[0][1]["span"]),
+                             "the per-block entries are inserted into `%s` instead of being appended to a list: two selected blocks with the same key (e.g. the same start line) collapse into one entry" % kt[:100])
+                else:
+                    out.viol(rule, "%s|push-count" % rule, ctx.where(b, t["span"]), "expected exactly one `Vec<serde_json::Value>::push` per listed block, found %d" % len(pushes))
+                continue
+            pbi, pc = pushes[0]
+            # every iteration reaches the push: the header is not reachable from the Some-arm when the push block is removed
+            r = cfg.reach(some, avoid=(set(range(cfg.n)) - set(region)) | {pbi})
+            if some != pbi and (h in r or any(h in cfg.succ[x] for x in r)):
+                out.viol(rule, "%s|skipped" % rule, ctx.where(b, pc["span"]), "there is a path through the per-block iteration that does not append an entry: a selected block can be missing from the report")
+                continue
+            # the pushed-to Vec is what is returned
+            vl = util.base_local(b, pc["args"][0])
+            ret = ctx.prov.read_local(b, 0)
+            vlabs = ctx.prov.read_local(b, vl) if vl is not None else set()
+            if vl is not None and (vlabs & ret or not vlabs):
+                n += 1
+            else:
+                out.viol(rule, "%s|not-returned" % rule, ctx.where(b, pc["span"]), "the list the entries are appended to is not the value returned")
+        for bi, t in maps:
+            e = E.operand(t["args"][0])
+            bad = [c[1].split("::")[-1] for c in walk(e) if c[0] == "call" and (TRUNCATING.search(c[1]) or re.search(r"Iterator>?::(filter|filter_map)$", c[1]))]
+            if bad or not callee_matches(t, r"Iterator>?::map$"):
+                out.viol(rule, "%s|truncated" % rule, ctx.where(b, t["span"]), "the list report maps the blocks through %s: selected blocks can be left out of the report" % (bad or [callee_name(t).split("::")[-1]]))
+                continue
+            cols = [c for bj, c in b.calls() if callee_matches(c, r"Iterator>?::collect$")]
+            if any("std::vec::Vec<serde_json::Value>" in (ctx.facts.ret_ty(c) if hasattr(ctx.facts, "ret_ty") else b.local_ty(c["dest"]["l"])) for c in cols):
+                n += 1
+            else:
+                out.viol(rule, "%s|keyed" % rule, ctx.where(b, t["span"]), "the per-block entries are not collected into a `Vec<serde_json::Value>`")
+    out.inst(rule, n, 1, cands, note="one entry appended per block on every path; the appended-to Vec is returned; no keyed/lossy container")
+
+
 def run(ctx, out, tier):
     check_exit(ctx, out)
     check_severity(ctx, out)
     check_all(ctx, out)
     check_shape(ctx, out)
+    check_list(ctx, out)
     bodies = ctx.reachable_bodies()
     shared.sh_merge(ctx, out, bodies)
     dv = detect_fn(ctx)
